@@ -120,7 +120,7 @@ func (s *reportSim) addressSigned(a Address) int {
 }
 
 func (s *reportSim) GetWarrior(i int) Warrior {
-	if i > s.warriorCount {
+	if i < 0 || i >= s.warriorCount {
 		return nil
 	}
 	return s.warriors[i]
